@@ -924,3 +924,13 @@ package meta
 //@   modifies *except storeFSM.all store.all
 //@   loop 1 invariant no_data_node_with_this_tcp_address_so_far: all(i, 0, rangeindex + 1, data.DataNodes[i].TCPAddr != tcpAddr)
 //@   call append#1 requires appended_only_if_the_tcp_address_is_new: all(i, 0, len(data.DataNodes), data.DataNodes[i].TCPAddr != tcpAddr)
+
+// ---- C05: the shards a query is planned over ----
+// A shard's local/remote routing in the shard mapper is decided by OwnedBy: it answers true exactly when the
+// node is among the shard's owners.
+//@ func (ShardInfo).OwnedBy
+//@   props C05
+//@   loop 1 invariant not_an_owner_so_far: all(k, 0, rangeindex + 1, si.Owners[k].NodeID != nodeID)
+//@   ensures sound: result ==> ex(k, 0, len(si.Owners), si.Owners[k].NodeID == nodeID)
+//@   ensures complete: !result ==> all(k, 0, len(si.Owners), si.Owners[k].NodeID != nodeID)
+//@   modifies nothing
